@@ -107,6 +107,10 @@ def skWrap : List (Nat × String × String) := [
   (2, "if", "row>=rows"),
   (3, "break", ""),
   (2, "assign", "segment,rest,_,state=uniseg.FirstLineSegmentInString(rest,state)"),
+  (2, "for", ";len(rest)>0&&splitsCluster(segment,rest);"),
+  (3, "var", "more string"),
+  (3, "assign", "more,rest,_,state=uniseg.FirstLineSegmentInString(rest,state)"),
+  (3, "assign", "segment+=more"),
   (2, "assign", "chars:=Characters(segment)"),
   (2, "assign", "total:=0"),
   (2, "range", "i,char:=range chars"),
@@ -137,6 +141,14 @@ def skWrap : List (Nat × String × String) := [
   (4, "assign", "row+=1"),
   (4, "assign", "col=0"),
   (0, "return", "col,row")]
+
+def sksplitsCluster : List (Nat × String × String) := [
+  (0, "var", "last string"),
+  (0, "assign", "state:=-1"),
+  (0, "for", ";len(a)>0;"),
+  (1, "assign", "last,a,_,state=uniseg.FirstGraphemeClusterInString(a,state)"),
+  (0, "assign", "cluster,_,_,_:=uniseg.FirstGraphemeClusterInString(last+b,-1)"),
+  (0, "return", "len(cluster)>len(last)")]
 
 
 end VaxisModel.Lemmas.WindowSkelPinned
